@@ -517,3 +517,14 @@ Definition C10_cookie_ok (cb0 key0 : bytes) (c0 : server_cookie) (cb key : bytes
 (* keys exported for the two directions: both ends agree, the directions differ *)
 Definition C10_export_ok (cl_s2c cl_c2s sv_s2c sv_c2s : bytes) : bool :=
   bytes_eqb cl_s2c sv_s2c && bytes_eqb cl_c2s sv_c2s && negb (bytes_eqb cl_c2s cl_s2c).
+
+(* listeners: a datagram longer than 48 bytes is answered only if it carries,
+   unchanged, the authenticated bytes, nonce and ciphertext of a request that an
+   honest client sent (the key is the one inside that request's own cookie);
+   and every honest request is answered *)
+Definition C10_listener_ok (hs : list honest) (b : bytes) (replied verified : bool) : bool :=
+  (if replied then existsb (fun h => (h_dir h =? 0) && untampered b h) hs else true) &&
+  (if existsb (fun h => (h_dir h =? 0) && bytes_eqb (h_bytes h) b) hs then replied else true) &&
+  (* the reply is itself a packet of the project's encoder under the S2C key of
+     the request's cookie: the requesting client must accept it *)
+  (if replied then verified else true).
